@@ -746,6 +746,38 @@ def _ior_update(func):
     return changed
 
 
+def _exc_traceback(func):
+    """inside `except T as exc:` (exc not rebound, no nested try), the handled
+    exception's `exc.__traceback__` is `sys.exc_info()[2]`"""
+    changed = False
+    for h in ast.walk(func):
+        if not isinstance(h, ast.ExceptHandler) or not h.name:
+            continue
+        body = ast.Module(body=h.body, type_ignores=[])
+        if any(isinstance(x, ast.Try) for x in ast.walk(body)):
+            continue
+        if any(isinstance(x, ast.Name) and x.id == h.name and
+               not isinstance(x.ctx, ast.Load) for x in ast.walk(body)):
+            continue
+
+        class T(ast.NodeTransformer):
+            hit = False
+
+            def visit_Attribute(self, n):
+                self.generic_visit(n)
+                if n.attr == '__traceback__' and isinstance(n.value, ast.Name) and \
+                        n.value.id == h.name and isinstance(n.ctx, ast.Load):
+                    T.hit = True
+                    return ast.copy_location(
+                        ast.parse('sys.exc_info()[2]', mode='eval').body, n)
+                return n
+        t = T()
+        h.body = [t.visit(st) for st in h.body]
+        if T.hit:
+            changed = True
+    return changed
+
+
 def _is_const(e, v):
     return isinstance(e, ast.Constant) and e.value is v
 
@@ -1476,6 +1508,8 @@ def normalize(func):
         if alpha(st):
             changed = True
     if _ior_update(new):
+        changed = True
+    if _exc_traceback(new):
         changed = True
     mod_ = _module_of(func)
     if mod_ is not None:
